@@ -13,17 +13,20 @@ static inline void nosw_on(void) { int me = mv_me(); if (me >= 0) nosw[me] = 1; 
 static inline void nosw_off(void) { int me = mv_me(); if (me >= 0) nosw[me] = 0; }
 
 /* =============================== C06 barrier =============================== */
+#define BMAXN 4200
 static struct {
-  int N, R, main_participates; int delay[12][6];
+  int N, R, main_participates; unsigned dseed;
   myth_barrier_t b;
   volatile int arrived[8], returned[8], serial[8];
   int raced_ahead, migrated;
 } B;
+/* per-participant, per-round delay (0..3 yields), derived from the generated seed */
+static int b_delay(int me, int k) { unsigned x = (unsigned)(me * 2654435761u) ^ (unsigned)(k * 40503u) ^ B.dseed; x ^= x >> 13; x *= 0x5bd1e995u; x ^= x >> 15; return B.N > 64 ? (int)((x & 15) == 0) : (int)(x & 3); }
 
 static void * barrier_body(void * a) {
   int me = (int)(intptr_t)a;
   for (int k = 0; k < B.R; k++) {
-    do_yields(B.delay[me][k]);
+    do_yields(b_delay(me, k));
     if (k > 0 && B.returned[k - 1] < B.N) __sync_fetch_and_add(&B.raced_ahead, 1);
     __sync_fetch_and_add(&B.arrived[k], 1);
     int w0 = myth_get_worker_num();
@@ -42,14 +45,19 @@ static void * barrier_body(void * a) {
 void scen_c06(mt_case * c) {
   mt_engine_cfg e; rd_t * r = &c->prog;
   mt_decode_engine(c, &e, 8);
-  B.N = rd_range(r, 1, 12); B.R = rd_range(r, 1, 6); B.main_participates = (int)rd_below(r, 2);
-  mt_desc("C06 barrier N=%d rounds=%d main_participates=%d\n delays:", B.N, B.R, B.main_participates);
-  for (int i = 0; i < B.N; i++) { mt_desc(" p%d:", i); for (int k = 0; k < B.R; k++) { B.delay[i][k] = (int)rd_below(r, 4); mt_desc("%d", B.delay[i][k]); } }
-  mt_desc("\n");
+  /* N: dense small values, and (1 case in 8) the boundaries of powers of two up to 4097 -- "N from 1 upward" */
+  static const int bigN[] = { 15, 16, 17, 31, 32, 33, 63, 64, 65, 127, 128, 129, 255, 256, 257, 511, 512, 513, 1023, 1024, 1025, 1026, 1027, 1100, 2047, 2048, 2049, 2050, 4097 };
+  unsigned sel = rd_u8(r);
+  B.N = rd_range(r, 1, 12);
+  int big = (sel & 7) == 7;
+  if (big) B.N = bigN[rd_below(r, sizeof bigN / sizeof bigN[0])];
+  B.R = rd_range(r, 1, big ? 3 : 6); B.main_participates = (int)rd_below(r, 2); B.dseed = rd_u16(r) | ((unsigned)rd_u16(r) << 16);
+  if (big && e.W < 2 && rd_below(r, 2)) e.W = 2 + (int)rd_below(r, 3);
+  mt_desc("C06 barrier N=%d rounds=%d main_participates=%d delay seed=%08x\n", B.N, B.R, B.main_participates, B.dseed);
   mt_hash(c->prog.p, c->prog.pos);
-  mt_lib_start(c, &e, 0);
+  mt_lib_start(c, &e, big ? 32768 : 0);
   myth_barrier_init(&B.b, 0, B.N);
-  myth_thread_t th[12]; int first = B.main_participates ? 1 : 0;
+  myth_thread_t * th = calloc((size_t)B.N + 1, sizeof *th); int first = B.main_participates ? 1 : 0;
   for (int i = first; i < B.N; i++) myth_create_ex(&th[i], 0, barrier_body, (void *)(intptr_t)i);
   if (B.main_participates) barrier_body((void *)0);
   for (int i = first; i < B.N; i++) { myth_join(th[i], 0); mv_progress(); }
@@ -60,9 +68,9 @@ void scen_c06(mt_case * c) {
   }
   if (B.b.state != 0) mt_fail("barrier state %ld at quiescence", (long)B.b.state);
   long spun = (long)HIT(MVS_WAKE_MANY_S);
-  mt_stat("last_arriver_spun", spun); mt_stat("raced_ahead", B.raced_ahead); mt_stat("migrated", B.migrated);
+  mt_stat("N", B.N); mt_stat("last_arriver_spun", spun); mt_stat("raced_ahead", B.raced_ahead); mt_stat("migrated", B.migrated);
   if (spun) mt_label("last_arriver_waited_for_sleeper"); if (B.raced_ahead) mt_label("raced_into_next_round");
-  if (B.migrated) mt_label("resumed_on_other_worker"); if (B.N == 1) mt_label("N1"); if (e.W == 1) mt_label("W1");
+  if (B.migrated) mt_label("resumed_on_other_worker"); if (B.N == 1) mt_label("N1"); if (e.W == 1) mt_label("W1"); if (big) mt_label("N_at_power_of_two_boundary"); if (B.N > 1024) mt_label("N_gt_1024");
   mt_nontrivial(spun > 0 || B.raced_ahead > 0);
 }
 
